@@ -81,6 +81,34 @@ CLAIMED = {
    note="Not decided: set-union/idempotence/round-trip equalities, BLS aggregation arithmetic, combination index encode/decode. Trusted: ed25519/blst Verify, bitset semantics.",
    technique="guard edge-dominance with pre-bound value shapes, who-may-write, bounded-read (length test dominance), composite-literal field freshness",
  ),
+ "C14": dict(
+   category="other",
+   text="Round-trip value equality is not decided. Decided: the encoder's and decoder's field relations are converse and cover every consensus-relevant field (derived fields listed), for headers, proposed/committed headers, commit proofs, validators and both sparse proofs; no wire field whose nil/empty distinction matters carries omitempty (only the variant selector may); the variant written per message kind is the variant decoded through the matching Unmarshal method; fixed-width reads of encoded bytes are length-checked and undecodable messages are ignored by the p2p validator.",
+   design_ref="DESIGN.md §4 C14",
+   note="encoding/json behaviour and nested library types are trusted; equality of values is not decided.",
+   technique="field-relation extraction from SSA stores/literals (incl. locally built slices and maps), struct-tag inspection on the syntax tree, guard edge-dominance, bounded-read analysis",
+ ),
+ "C15": dict(
+   category="other",
+   text="Collision resistance trusted. Decided: Block ignores the stored hash and every other header leaf field (incl. each previous-commit signature's key id and bytes) flows into the hashed bytes; no hasher write inside a map loop and collected slices are sorted; a field-sensitive taint analysis shows no block-hash-keyed map is indexed by a formatted/literal key (the defect that dropped commit-proof signatures from the hash, now fixed); format strings have out-of-alphabet delimiters and distinct labels, optional sections nil-guarded; leading lines of proposal/prevote/precommit sign contents (resolved through helper calls with constant arguments) are pairwise disjoint and prefix-free.",
+   design_ref="DESIGN.md §4 C15",
+   note="Injectivity over variable-length fields beyond the delimiter check is not decided.",
+   technique="data-flow coverage of hash inputs, field-sensitive formatting taint, constant format-string analysis, interprocedural constant substitution for sign-content heads",
+ ),
+ "C17": dict(
+   category="other",
+   text="Decides the structure of the shipped ChattyStrategy: only the three helpers send on the broadcaster channels and only data built from their view parameter; broadcastAll covers all three; diff falls back to a full broadcast unless height and round match; first update broadcast in full; nil-voted-round precommits broadcast on every path with no extra condition (flag-sensitive all-paths); the updates-only predicate does not use the cardinality of a cross-target signer union (defect D19, fixed); previous views replaced after handling.",
+   design_ref="DESIGN.md §4 C17",
+   note="Completeness for arbitrary update sequences beyond the predicate shape is not decided.",
+   technique="who-may-send with payload provenance, guard edge-dominance, all-paths post-dominance from a branch edge",
+ ),
+ "C19": dict(
+   category="other",
+   text="For any user-supplied apply/delete functions: append only on the nil-error edge of addTx for that tx against the state selected by isUpdated; returned state threaded into curState; Rebase installs the base, deletes applied, re-applies each remaining tx once in order in a range loop that does not mutate the list, deletes exactly the invalidated ones afterwards and returns them; the four state fields have two writers; the working state is confined to the kernel goroutine with unbuffered request and capacity-1 response channels.",
+   design_ref="DESIGN.md §4 C19",
+   note="Semantics of addTx/txDeleter are not decided; the early error return of Rebase leaves the list as is.",
+   technique="guard edge-dominance, loop-structure analysis (range loop, no in-loop mutation), who-may-write, confinement and channel-capacity checks",
+ ),
  "C16": dict(
    category="other",
    text="Structural necessary conditions, decided exactly on SSA: lockset dataflow over all 22 methods of the 7 tmmemstore types (every access to a guarded field or anything reached from it under the receiver mutex, writes under Lock, exactly one acquisition per method, so each method is one atomic step); guard dominance for the no-overwrite contracts (double action, key change, finalization overwrite, duplicate validator data); key/value wiring of every map write and load and the documented not-found error on every miss edge.",
